@@ -4,9 +4,13 @@ package harness
 // channel never observe each other's messages.
 
 import (
+	"bufio"
 	"context"
 	"fmt"
 	"io"
+	"net"
+	"net/http"
+	"net/http/httptest"
 	"runtime"
 	"strconv"
 	"sync"
@@ -15,8 +19,14 @@ import (
 	"time"
 
 	"google.golang.org/grpc"
+	"google.golang.org/grpc/codes"
 	"google.golang.org/grpc/metadata"
+	"google.golang.org/grpc/status"
+	"google.golang.org/protobuf/encoding/protowire"
 	"pgregory.net/rapid"
+
+	"github.com/fullstorydev/grpchan/httpgrpc"
+	"google.golang.org/protobuf/proto"
 
 	pb "github.com/fullstorydev/grpchan/grpchantesting"
 )
@@ -25,14 +35,19 @@ type c01RPC struct {
 	Kind        string
 	Reqs        []MsgSpec
 	Resps       []MsgSpec
-	Duplex      bool  `json:",omitempty"` // bidi on inproc: both directions flow concurrently
-	Scribble    bool  `json:",omitempty"` // senders overwrite each message right after the send has returned (it is theirs again)
-	HeaderFirst bool  `json:",omitempty"` // the client calls Header() before its first receive
-	HeaderConc  bool  `json:",omitempty"` // another goroutine of the client calls Header() while the receive loop runs
-	ReuseDst    bool  `json:",omitempty"` // receivers receive into one and the same message object every time
-	CPace       []int `json:",omitempty"` // Gosched counts before client sends
-	HPace       []int `json:",omitempty"` // Gosched counts before handler sends
-	RPace       []int `json:",omitempty"` // Gosched counts before client receives
+	Duplex      bool `json:",omitempty"` // bidi on inproc: both directions flow concurrently
+	Scribble    bool `json:",omitempty"` // senders overwrite each message right after the send has returned (it is theirs again)
+	HeaderFirst bool `json:",omitempty"` // the client calls Header() before its first receive
+	HeaderConc  bool `json:",omitempty"` // another goroutine of the client calls Header() while the receive loop runs
+	ReuseDst    bool `json:",omitempty"` // receivers receive into one and the same message object every time
+	EarlyHeader bool `json:",omitempty"` // streaming handlers call SendHeader before their first receive
+	// RecvLimit > 0 (streams): the caller passes grpc.MaxCallRecvMsgSize(RecvLimit). A transport that enforces it
+	// ends the call with ResourceExhausted at the first response above the limit (the standard transport does); one
+	// that does not delivers everything. Either way what was obtained is a prefix of what was sent.
+	RecvLimit int   `json:",omitempty"`
+	CPace     []int `json:",omitempty"` // Gosched counts before client sends
+	HPace     []int `json:",omitempty"` // Gosched counts before handler sends
+	RPace     []int `json:",omitempty"` // Gosched counts before client receives
 }
 
 type c01Case struct {
@@ -41,6 +56,147 @@ type c01Case struct {
 	// Chunked (HTTP carriers): a middleware removes the Content-Length of replies (as compression or a
 	// re-chunking proxy does), so unary replies arrive with unknown length
 	Chunked bool `json:",omitempty"`
+	// Fault != "": separate mode (HTTP carriers), one call whose connection fails at a chosen point. Whatever the
+	// outcome of the call, what each side has obtained stays a prefix of what its peer sent, message by message.
+	//   lost-reply:    the reply is cut after FaultAt bytes (clean end or reset), after the handler has run
+	//   short-request: over real TCP the request is announced in full, sent up to FaultAt (or up to the
+	//                  FaultAt-th field/frame boundary) and the sending side is then closed in an orderly way
+	Fault      string  `json:",omitempty"`
+	FaultAt    int     `json:",omitempty"`
+	FaultOnBnd bool    `json:",omitempty"`
+	FaultReset bool    `json:",omitempty"`
+	FS         *Script `json:",omitempty"`
+}
+
+// c01PrefixOf: got[i] == want[i] for all i, len(got) <= len(want).
+func c01PrefixOf(got, want [][]byte) string {
+	if len(got) > len(want) {
+		return fmt.Sprintf("%d messages obtained, only %d were sent", len(got), len(want))
+	}
+	for i := range got {
+		if string(got[i]) != string(want[i]) {
+			return fmt.Sprintf("message %d obtained (%d bytes) is not message %d as sent (%d bytes)", i, len(got[i]), i, len(want[i]))
+		}
+	}
+	return ""
+}
+
+func c01Fault(c c01Case) *Outcome {
+	o := &Outcome{NonTrivial: true}
+	s := c.FS
+	o.class("carrier=%s", c.Carrier)
+	o.class("fault=%s/kind=%s", c.Fault, s.Kind)
+	var sent [][]byte
+	for _, r := range s.Reqs {
+		sent = append(sent, detBytes(r.Build()))
+	}
+	e := modelScript(s)
+	if c.Fault == "lost-reply" {
+		obs := runScript(s, c.Carrier, carrierOpts{WrapConn: func(nc net.Conn) net.Conn {
+			return &cutConn{Conn: nc, remaining: c.FaultAt, abrupt: c.FaultReset, afterReply: true}
+		}})
+		o.Observed = obs
+		if len(obs.Panics) > 0 {
+			return o.failf("%s/%s: reply cut after %d bytes: panic %s", c.Carrier, s.Kind, c.FaultAt, obs.Panics[0])
+		}
+		if obs.Stalled != "" {
+			return o.failf("%s/%s: reply cut after %d bytes: %s", c.Carrier, s.Kind, c.FaultAt, obs.Stalled)
+		}
+		if why := c01PrefixOf(obs.HRecv, sent); why != "" {
+			return o.failf("%s/%s: reply cut after %d bytes (reset=%v): handler side: %s (handler ran %d times)", c.Carrier, s.Kind, c.FaultAt, c.FaultReset, why, obs.HandlerRuns)
+		}
+		var got [][]byte
+		for _, r := range obs.Recvs {
+			if r.Err == "" {
+				got = append(got, r.Msg)
+			}
+		}
+		if why := c01PrefixOf(got, e.Msgs); why != "" {
+			return o.failf("%s/%s: reply cut after %d bytes (reset=%v): client side: %s", c.Carrier, s.Kind, c.FaultAt, c.FaultReset, why)
+		}
+		return o
+	}
+	// short-request
+	var mu sync.Mutex
+	var hrecv [][]byte
+	svc := &Service{
+		Unary: func(ctx context.Context, req *pb.Message) (*pb.Message, error) {
+			mu.Lock()
+			hrecv = append(hrecv, detBytes(req))
+			mu.Unlock()
+			return &pb.Message{}, nil
+		},
+		Stream: func(kind string, stream grpc.ServerStream) error {
+			for {
+				m := new(pb.Message)
+				if err := stream.RecvMsg(m); err != nil {
+					return nil
+				}
+				mu.Lock()
+				hrecv = append(hrecv, detBytes(m))
+				mu.Unlock()
+			}
+		},
+	}
+	var body []byte
+	var bounds []int
+	ctype := httpgrpc.UnaryRpcContentType_V1
+	if s.Kind == kUnary {
+		body = mustMarshal(s.Reqs[0].Build())
+		for off := 0; off < len(body); {
+			_, _, n := protowire.ConsumeField(body[off:])
+			if n <= 0 {
+				break
+			}
+			bounds = append(bounds, off)
+			off += n
+		}
+	} else {
+		ctype = httpgrpc.StreamRpcContentType_V1
+		for _, r := range s.Reqs {
+			bounds = append(bounds, len(body))
+			b := mustMarshal(r.Build())
+			// inside the frame too: after the size preface, and at a field boundary of its message
+			bounds = append(bounds, len(body)+4)
+			if _, _, n := protowire.ConsumeField(b); n > 0 && n < len(b) {
+				bounds = append(bounds, len(body)+4+n)
+			}
+			body = append(body, encodeStream([]proto.Message{r.Build()}, nil)...)
+		}
+	}
+	k := c.FaultAt
+	if c.FaultOnBnd && len(bounds) > 0 {
+		k = bounds[c.FaultAt%len(bounds)]
+	}
+	if len(body) == 0 || k >= len(body) {
+		o.NonTrivial = false
+		return o
+	}
+	srv := httptest.NewServer(newHTTPHandlerBase(c.Carrier, "", newServiceDesc(), svc))
+	defer srv.Close()
+	conn, err := net.Dial("tcp", srv.Listener.Addr().String())
+	if err != nil {
+		o.Inconclusive = "harness: dial: " + err.Error()
+		return o
+	}
+	defer conn.Close()
+	conn.SetDeadline(time.Now().Add(stallBound))
+	fmt.Fprintf(conn, "POST %s HTTP/1.1\r\nHost: verif.test\r\nContent-Type: %s\r\nContent-Length: %d\r\nConnection: close\r\n\r\n", methodOf(s.Kind), ctype, len(body))
+	conn.Write(body[:k])
+	conn.(*net.TCPConn).CloseWrite()
+	resp, rerr := http.ReadResponse(bufio.NewReader(conn), nil)
+	if rerr == nil {
+		io.Copy(io.Discard, resp.Body)
+		resp.Body.Close()
+	}
+	srv.Close() // waits for the handler
+	mu.Lock()
+	defer mu.Unlock()
+	o.Observed = map[string]interface{}{"announced": len(body), "sent": k, "handler_obtained": len(hrecv), "read_err": errStr(rerr)}
+	if why := c01PrefixOf(hrecv, sent); why != "" {
+		return o.failf("%s/%s: request of %d bytes announced, %d sent, then the sending side closed: handler side: %s", c.Carrier, s.Kind, len(body), k, why)
+	}
+	return o
 }
 
 type c01run struct {
@@ -58,6 +214,7 @@ type c01rpcState struct {
 	hSendStarted atomic.Int32
 	hRecv, cRecv atomic.Int32
 	handlerRuns  atomic.Int32
+	limited      atomic.Bool // the call was ended by the receive limit the caller asked for
 }
 
 func (r *c01run) fault(format string, a ...interface{}) {
@@ -148,7 +305,9 @@ func (r *c01run) service() *Service {
 				pace(sp.HPace, j)
 				st.hSendStarted.Store(int32(j + 1))
 				if err := stream.SendMsg(m); err != nil {
-					r.fault("rpc %d (%s): handler SendMsg #%d: %v", i, kind, j, err)
+					if !st.limited.Load() {
+						r.fault("rpc %d (%s): handler SendMsg #%d: %v", i, kind, j, err)
+					}
 					return err
 				}
 				if sp.Scribble {
@@ -157,6 +316,11 @@ func (r *c01run) service() *Service {
 				}
 			}
 			return nil
+		}
+		if sp.EarlyHeader {
+			if err := stream.SendHeader(metadata.Pairs("zz-early", "1")); err != nil {
+				r.fault("rpc %d (%s): handler SendHeader before its first receive: %v", i, kind, err)
+			}
 		}
 		var wg sync.WaitGroup
 		if sp.Duplex {
@@ -223,7 +387,11 @@ func (r *c01run) client(conn grpc.ClientConnInterface, i int) {
 		st.cRecv.Add(1)
 		return
 	}
-	cs, err := conn.NewStream(ctx, streamDescOf(sp.Kind), methodOf(sp.Kind))
+	var copts []grpc.CallOption
+	if sp.RecvLimit > 0 {
+		copts = append(copts, grpc.MaxCallRecvMsgSize(sp.RecvLimit))
+	}
+	cs, err := conn.NewStream(ctx, streamDescOf(sp.Kind), methodOf(sp.Kind), copts...)
 	if err != nil {
 		r.fault("rpc %d (%s): NewStream: %v", i, sp.Kind, err)
 		return
@@ -287,6 +455,12 @@ func (r *c01run) client(conn grpc.ClientConnInterface, i int) {
 		if err == io.EOF {
 			break
 		}
+		if err != nil && sp.RecvLimit > 0 && status.Code(err) == codes.ResourceExhausted && j < len(want) && len(mustMarshal(st.resps[j])) > sp.RecvLimit {
+			// the limit the caller asked for: the call is over, nothing more is owed
+			st.limited.Store(true)
+			cancel()
+			break
+		}
 		if err != nil {
 			r.fault("rpc %d (%s): client RecvMsg #%d: %v", i, sp.Kind, j, err)
 			break
@@ -306,7 +480,7 @@ func (r *c01run) client(conn grpc.ClientConnInterface, i int) {
 		}
 	}
 	wg.Wait()
-	if int(st.cRecv.Load()) != len(want) {
+	if int(st.cRecv.Load()) != len(want) && !st.limited.Load() {
 		r.fault("rpc %d (%s): call ended successfully after %d of %d response messages", i, sp.Kind, st.cRecv.Load(), len(want))
 	}
 }
@@ -356,6 +530,9 @@ func c01Exec(c *c01Case, carrier string) (faults []string, stalled string) {
 }
 
 func propC01(c c01Case) *Outcome {
+	if c.Fault != "" {
+		return c01Fault(c)
+	}
 	o := &Outcome{}
 	o.class("carrier=%s", c.Carrier)
 	o.class("concurrent-rpcs=%s", bucket(len(c.RPCs), 1, 2, 4, 8, 16, 64))
@@ -444,6 +621,10 @@ func genC01RPC(t *rapid.T, carrier string, maxMsg int) c01RPC {
 	rp.HeaderFirst = rp.Kind != kUnary && rapid.IntRange(0, 3).Draw(t, "headerfirst") == 0
 	rp.HeaderConc = rp.Kind != kUnary && !rp.HeaderFirst && rapid.IntRange(0, 3).Draw(t, "headerconc") == 0
 	rp.ReuseDst = rp.Kind != kUnary && rapid.IntRange(0, 2).Draw(t, "reusedst") == 0
+	rp.EarlyHeader = rp.Kind != kUnary && rapid.IntRange(0, 3).Draw(t, "earlyheader") == 0
+	if serverStreaming(rp.Kind) && !rp.Duplex && rapid.IntRange(0, 3).Draw(t, "recvlimit") == 0 {
+		rp.RecvLimit = rapid.SampledFrom([]int{1, 60, 1000, 5000, 70000}).Draw(t, "recvlimitbytes")
+	}
 	rp.CPace = genPace(t, "cpace", nreq)
 	rp.HPace = genPace(t, "hpace", nresp)
 	rp.RPace = genPace(t, "rpace", nresp)
@@ -451,6 +632,25 @@ func genC01RPC(t *rapid.T, carrier string, maxMsg int) c01RPC {
 }
 
 func genC01(t *rapid.T) c01Case {
+	if rapid.IntRange(0, 9).Draw(t, "fault") == 0 {
+		c := c01Case{Carrier: rapid.SampledFrom([]string{cHTTP, cHTTPMux, cHTTPPer}).Draw(t, "fcarrier")}
+		c.Fault = rapid.SampledFrom([]string{"lost-reply", "short-request"}).Draw(t, "faultkind")
+		fs := genScript(t, scriptGenOpts{MaxMsg: 6000, MDKeys: 0, FewOps: true, NoEarly: true, PlainStatus: true, OnlyKinds: []string{kUnary, kUnary, kUnary, kServerStream, kClientStream, kBidi}})
+		fs.Spoof, fs.Deadline, fs.OptReuse, fs.RegAllBidi, fs.Chunked = 0, false, false, false, false
+		for i := range fs.Reqs {
+			fs.Reqs[i].Anys, fs.Reqs[i].Unknown = nil, nil
+		}
+		c.FS = &fs
+		if c.Fault == "lost-reply" {
+			// mostly right at the start of the reply: the handler has run, the client has seen nothing (or little) of it
+			c.FaultAt = rapid.SampledFrom([]int{0, 0, 0, 0, 1, 12, 17, 40, 120, 400}).Draw(t, "faultat")
+			c.FaultReset = rapid.IntRange(0, 2).Draw(t, "faultreset") == 0
+		} else {
+			c.FaultAt = rapid.IntRange(0, 6000).Draw(t, "faultat")
+			c.FaultOnBnd = rapid.IntRange(0, 3).Draw(t, "faultbnd") > 0
+		}
+		return c
+	}
 	c := c01Case{Carrier: rapid.SampledFrom(sutCarriers).Draw(t, "carrier")}
 	c.Chunked = isHTTP(c.Carrier) && rapid.IntRange(0, 3).Draw(t, "chunked") == 0
 	maxK := 16
@@ -464,6 +664,11 @@ func genC01(t *rapid.T) c01Case {
 	}
 	for i := 0; i < k; i++ {
 		c.RPCs = append(c.RPCs, genC01RPC(t, c.Carrier, maxMsg))
+		if c.Chunked {
+			// the re-chunking middleware flushes as soon as the header is written, and with that net/http stops
+			// reading the request (half-duplex): headers before the end of the request are out of bounds there
+			c.RPCs[i].EarlyHeader = false
+		}
 	}
 	return c
 }
@@ -483,6 +688,15 @@ func c01BigCases() []c01Case {
 				c01Case{Carrier: car, RPCs: []c01RPC{{Kind: kUnary, Reqs: []MsgSpec{big}, Resps: []MsgSpec{big}}}},
 				c01Case{Carrier: car, RPCs: []c01RPC{{Kind: kBidi, Reqs: []MsgSpec{small, big, {Empty: true}, small}, Resps: []MsgSpec{big, {Empty: true}, small}}}})
 		}
+		// many small frames, well over what net/http is prepared to discard of an unread request (256 KiB), to a
+		// handler that sends its headers before it starts receiving
+		small := MsgSpec{Raw: []byte("x")}
+		var many []MsgSpec
+		for i := 0; i < 30000; i++ {
+			many = append(many, MsgSpec{Raw: []byte(fmt.Sprintf("%07d", i))})
+		}
+		cs = append(cs, c01Case{Carrier: car, RPCs: []c01RPC{{Kind: kClientStream, Reqs: many, Resps: []MsgSpec{small}, EarlyHeader: true}}},
+			c01Case{Carrier: car, RPCs: []c01RPC{{Kind: kBidi, Reqs: []MsgSpec{small, {Size: 300 << 10, Fill: 3}, small, small}, Resps: []MsgSpec{small, small}, EarlyHeader: true}}})
 	}
 	return cs
 }
@@ -491,7 +705,8 @@ func init() { registerReplay("C01", propC01) }
 
 const c01Rule = "rapid-generated: carrier x K concurrent RPCs on one channel (K up to 16, thorough 64), each with its own kind, request and response lists (0..12 messages: empty messages, zero-length encodings, maps/Any/unknown fields, payloads up to 1 MiB), per-op pacing, full-duplex bidi on inproc; " +
 	"plus forced size classes (1, 5, 17 MiB; thorough 48 and 96 MiB) on every carrier; every message is tagged (rpc, direction, index); oracle at every receive: i-th message obtained equals i-th message of the peer's list and the peer had started sending it; at a successful end both sequences complete; " +
-	"also generated since the seeded rounds: senders that scribble over a message right after sending it, header-first clients, receivers decoding into one reused message, Header() from a second goroutine while the receive loop runs, encoded sizes within 12 bytes of every power of two from 64 B to 128 KiB, the per-method HTTP server form (HandleMethod/HandleStream), replies without Content-Length (chunked by a middleware); " +
+	"also generated since the seeded rounds: senders that scribble over a message right after sending it, header-first clients, receivers decoding into one reused message, Header() from a second goroutine while the receive loop runs, callers asking for a receive size limit below some of the responses, handlers that send their headers before the first receive (also with 30000 small or one 300 KiB request pending), encoded sizes within 12 bytes of every power of two from 64 B to 128 KiB, the per-method HTTP server form (HandleMethod/HandleStream), replies without Content-Length (chunked by a middleware); " +
+	"a fault mode over the HTTP server forms (one call: the reply lost after 0..400 bytes once the handler has run, cleanly or by reset; or, over real TCP, a unary or streaming request announced in full, sent up to an offset or a field/frame boundary and then half-closed): whatever the outcome, each side has obtained a message-by-message prefix of what its peer sent; " +
 	"grpc-go over bufconn arbitrates any deviation; non-trivial = >=2 messages in a direction, or an empty message, or a message >=64 KiB, or K>=2; distinct by case hash"
 
 func TestC01(t *testing.T) {
